@@ -828,6 +828,14 @@ func (h *harness) runOpsStream(stream string, seed uint64, cases, nops int, corp
 	}
 	for i := 0; i < cases; i++ {
 		c := h.genCase(r, fmt.Sprintf("%s-%d-%d", stream, seed, i), stream, nops)
+		if h.dumpDir != "" {
+			if f, err := os.Create(filepath.Join(h.dumpDir, c.Name+".case")); err == nil {
+				bw := bufio.NewWriter(f)
+				c.write(bw)
+				bw.Flush()
+				f.Close()
+			}
+		}
 		h.runCase(c, stream, r)
 	}
 }
